@@ -83,14 +83,25 @@ def check_one(arg):
     rng = random.Random(seed * 23 + v)
     nfiles = 1 + v % 3
     main, files = make_split(st, rng, nfiles)
+    # include files WITHOUT any statement (empty, blank lines, comments only): reading goes on after the INCLUDE line
+    hollow = {}
+    for _ in range((v // 2) % 3):
+        fid = max(list(files) + [0]) + 1
+        files[fid] = []
+        hollow[fid] = rng.choice(["", "! nothing here\n", "\n\n", "  ! an indented comment only\n", "! a\n! b\n"])
+        host = main if not files or rng.random() < 0.6 else files[rng.choice([f for f in files if f not in hollow] or [fid])]
+        if host is files.get(fid):
+            host = main
+        host.insert(rng.randrange(0, len(host) + 1), ("i", fid))
     names = {f: "part%d.inc" % f for f in files}
     canon = "\n".join(s.line("") for s in st) + "\n"
     ref = fp.parse(canon, std=std, ignore_comments=True)
     if ref.kind != "tree":
         return dict(fails=[("generator", "canonical program rejected", dict(source=canon))], skipped=0)
-    texts = {f: render_items(its, st, names) for f, its in files.items()}
+    texts = {f: (hollow[f] if f in hollow else render_items(its, st, names)) for f, its in files.items()}
     # stated hypothesis: every included file is detected as the same source form as its parent (free)
-    if any(not get_source_info_str(t).is_free for t in texts.values()) or any(not its for its in files.values()):
+    if any(not get_source_info_str(t).is_free for f, t in texts.items() if f not in hollow) \
+            or any(not its for f, its in files.items() if f not in hollow):
         return dict(fails=[], skipped=1)
     absent = set(rng.sample(sorted(files), 1)) if (v % 4 == 3 and files) else set()
     d1 = tempfile.mkdtemp(prefix="verif_c13_a_")
